@@ -548,7 +548,7 @@ class LSrkmodelHH(timemodel):
             self.calcrhs(pfield)  # result in self.residual
             # substep
             pfield = field.copy()
-            self.add_res(pfield, dtloc*beta, beta) # beta is the subtimecoef
+            self.add_res(pfield, dtloc*beta) # dtloc*beta already carries the sub-step time
         field.set(pfield)
         return
 
